@@ -163,9 +163,12 @@ inductive PAtom
   | mimeHtml                             -- the sniffed MIME type contains "html"
   | disableAssets                        -- config.Get().DisableAssetsCapture
   | maxHopsCmp (op : Cmp) (n : Nat)      -- config.Get().MaxHops <op> n
+  | hasBody                              -- item.GetURL().GetBody() != nil
+  | hopsCmpMaxHops (op : Cmp)            -- item.GetURL().GetHops() <op> config.Get().MaxHops
 deriving DecidableEq, Repr
 
 inductive PCond
+  | const (b : Bool)
   | atom (a : PAtom)
   | not (c : PCond)
   | and (a b : PCond)
